@@ -34,6 +34,7 @@ type Program struct {
 	SentinelKind map[string]string // plain (wraps nothing) | custom (facts given by axioms)
 	SpecFiles []string
 	SrcPkgs []*packages.Package
+	canonStruct map[*types.Struct]string
 }
 
 var typeArgsRe = regexp.MustCompile(`\[[^\[\]]*\]`)
@@ -141,6 +142,25 @@ func Load(repo, specDir string) (*Program, error) {
 			return nil, err
 		}
 		p.Spec.Merge(sf)
+	}
+	// canonical names for struct definitions shared by several named types
+	p.canonStruct = map[*types.Struct]string{}
+	for _, sp := range p.Pkgs {
+		sc := sp.Pkg.Scope()
+		for _, n := range sc.Names() {
+			tn, ok := sc.Lookup(n).(*types.TypeName)
+			if !ok {
+				continue
+			}
+			st, ok := tn.Type().Underlying().(*types.Struct)
+			if !ok || st.NumFields() == 0 {
+				continue
+			}
+			name := p.TypeStr(tn.Type(), nil)
+			if old, have := p.canonStruct[st]; !have || len(name) < len(old) || (len(name) == len(old) && name < old) {
+				p.canonStruct[st] = name
+			}
+		}
 	}
 	p.SpecFiles = files
 	for _, fs := range p.Spec.Funcs {
